@@ -19,17 +19,13 @@ Say(tid, v) == PrintT(<<"VERDICT", tid, v>>)
 \* does not predict is judged as a violation even when the case belongs to a known class.
 ModelReproduces(o) == o.pz.first = ImplFirst(o.case)
 
-\* the internal error of int("\u00b2"): a real crash, predicted by the model, on a template of the named class
-\* (the crash verdict below covers the missing report and the Any[error] type of the same observation)
-KnownCrash(o) == o.pz.crash /\ ImplCrashes(o.case) /\ Dev_IsdigitNameCrash(o.case)
-
 Judge(o) ==
     LET c == o.case
         k == o.pz.first
         raises == o.cpy.exc # "ok"
     IN /\ (IF RefOutcome(c) = o.cpy.exc /\ (raises \/ o.cpy.rtype = RefType(c)) THEN TRUE
            ELSE Say(o.tid, "oracle:RefOutcome=" \o RefOutcome(c) \o " real=" \o o.cpy.exc))
-       /\ (IF raises /\ k = "none" /\ ~KnownCrash(o)
+       /\ (IF raises /\ k = "none"
            THEN (IF DevMissed(c, k) # "no" /\ ModelReproduces(o) THEN Say(o.tid, "dev:" \o DevMissed(c, k))
                  ELSE Say(o.tid, "viol:ReportsWhenRaises"))
            ELSE TRUE)
@@ -37,8 +33,7 @@ Judge(o) ==
            THEN (IF DevFalse(c, k) # "no" /\ ModelReproduces(o) THEN Say(o.tid, "dev:" \o DevFalse(c, k))
                  ELSE Say(o.tid, "viol:SilentWhenOk"))
            ELSE TRUE)
-       /\ (IF o.pz.crash
-           THEN (IF KnownCrash(o) THEN Say(o.tid, "dev:format-isdigit-name-crash") ELSE Say(o.tid, "viol:Exception"))
+       /\ (IF o.pz.crash THEN Say(o.tid, "viol:Exception")
            ELSE IF ~raises /\ o.pz.rtype # o.cpy.rtype THEN Say(o.tid, "viol:TypeIsResultType")
            ELSE TRUE)
        /\ (IF k = ImplFirst(c) THEN TRUE ELSE Say(o.tid, "drift:first"))
